@@ -623,6 +623,8 @@ def own_nodes(fn_node: ast.AST) -> Iterator[ast.AST]:
     while stack:
         n = stack.pop()
         yield n
+        if isinstance(n, (ast.FunctionDef, ast.AsyncFunctionDef, ast.ClassDef)):
+            continue  # a nested def is a statement of this function; its body is not
         for c in ast.iter_child_nodes(n):
             if isinstance(c, (ast.FunctionDef, ast.AsyncFunctionDef, ast.ClassDef)):
                 continue
